@@ -74,6 +74,10 @@ def case(spec) -> tuple:
                 return ('finding', f'predicate-wrapping@{text}', f'simplify({{{text}}}) = {sp} but the condition simplifies to {out}', rep)
         except Exception as e:
             return ('finding', f'predicate-{rw.exc_signature(e)}@{text}', f'simplify on predicate {{{text}}} raised {type(e).__name__}: {short(e, 100)}', rep)
+    if len(text) % 3 == 0:
+        h = rw.history_dependence(simplify, gen.build(spec), holds=lambda d, o: (o.data_type == d.data_type and eq.equivalent(d, [o], K=K).verdict != 'sat'))
+        if h:
+            return ('finding', f'history@{text}', f'simplify depends on earlier calls: {h}', rep)
     if r.verdict == 'identity':
         return ('identity', None, None, 0.0)
     return ('ok' if r.reach else 'vacuous', None, None, r.secs)
